@@ -62,10 +62,20 @@ def is_resource_modified(
         # that does not contain a Range header field.
         if_range = parse_if_range_header(http_if_range)
 
-    if if_range is not None and if_range.date is not None:
-        modified_since: datetime | None = if_range.date
-    else:
-        modified_since = parse_date(http_if_modified_since)
+    if if_range is not None and (
+        if_range.date is not None or if_range.etag is not None
+    ):
+        # Only the validator in If-Range decides if the range applies, the
+        # other conditional headers were evaluated for the request already.
+        if if_range.date is not None:
+            return not (last_modified is not None and last_modified <= if_range.date)
+
+        if not etag:
+            return True
+
+        return not parse_etags(if_range.etag).contains(unquote_etag(etag)[0])
+
+    modified_since = parse_date(http_if_modified_since)
 
     if modified_since and last_modified and last_modified <= modified_since:
         unmodified = True
@@ -73,24 +83,21 @@ def is_resource_modified(
     if etag:
         etag, _ = unquote_etag(etag)
 
-        if if_range is not None and if_range.etag is not None:
-            unmodified = parse_etags(if_range.etag).contains(etag)
-        else:
-            if_none_match = parse_etags(http_if_none_match)
-            if if_none_match:
-                # https://tools.ietf.org/html/rfc7232#section-3.2
-                # "A recipient MUST use the weak comparison function when comparing
-                # entity-tags for If-None-Match"
-                unmodified = if_none_match.contains_weak(etag)
+        if_none_match = parse_etags(http_if_none_match)
+        if if_none_match:
+            # https://tools.ietf.org/html/rfc7232#section-3.2
+            # "A recipient MUST use the weak comparison function when comparing
+            # entity-tags for If-None-Match"
+            unmodified = if_none_match.contains_weak(etag)
 
-            # https://tools.ietf.org/html/rfc7232#section-3.1
-            # "Origin server MUST use the strong comparison function when
-            # comparing entity-tags for If-Match"
-            if_match = parse_etags(http_if_match)
-            if if_match and not if_match.contains(etag):
-                # The precondition failed. An If-Match that admits the etag
-                # leaves the result of the other validators alone.
-                unmodified = True
+        # https://tools.ietf.org/html/rfc7232#section-3.1
+        # "Origin server MUST use the strong comparison function when
+        # comparing entity-tags for If-Match"
+        if_match = parse_etags(http_if_match)
+        if if_match and not if_match.contains(etag):
+            # The precondition failed. An If-Match that admits the etag
+            # leaves the result of the other validators alone.
+            unmodified = True
 
     return not unmodified
 
